@@ -5,6 +5,9 @@ E2 enumeration on the real efuns with an interposed libc file layer (env/fs.c):
   part paths   : 52 ops x all path strings of length <= 5 (quick) / 7 (thorough) over {a . / #}, each also behind a
                  1100-character component, x {deny, allow} for valid_read and valid_write independently; run on an
                  uninstrumented build of the same harness, and to length 4 / 5 on the sanitizer build
+  part reentrant: the 42 mediated ops x 7 paths x 6 masters whose valid_read/valid_write do file I/O of their own before
+                 approving with a number (read_file / file_size / get_dir / write_file / read_bytes on another path, and the
+                 efun being asked about on the same path); an access must be approved for its own caller
   part faults  : every op x 7 paths x each of its first 20 libc calls failing (EIO; EXDEV on rename; EXDEV then EIO)
   part rewrite : the 43 mediated ops x master answers "rewrite to p'" for all p' of length <= 3 / 4
                  (both applies / only valid_read / only valid_write rewritten) x 3 input paths
@@ -141,7 +144,7 @@ def allowed_unreached(k):
 
 
 INV_FILE = os.path.join(vlib.OUT, "C15-inventory.txt")
-SITE_TAGS = ["legal", "rewrite", "faults", "paths"]
+SITE_TAGS = ["legal", "rewrite", "reentrant", "faults", "paths"]
 
 
 def site_files():
@@ -203,6 +206,7 @@ def _run_parts(ck, exes, La, Lp, R, deadline):
         return "--sites=" + p
     ck.enum(exe, ["--part=legal", sf("legal")], "legal", batch=8, deadline_s=deadline)
     ck.enum(exe, ["--part=rewrite", "--rlen=%d" % R, sf("rewrite")], "rewrite", batch=500, deadline_s=deadline, timeout_ms=30000)
+    ck.enum(exe, ["--part=reentrant", sf("reentrant")], "reentrant", batch=100, deadline_s=deadline, timeout_ms=30000)
     ck.enum(exe, ["--part=faults", sf("faults")], "faults", batch=200, deadline_s=deadline, timeout_ms=30000)
     ck.enum(exe, ["--part=paths", "--len=%d" % La, sf("paths")], "paths-asan", batch=500, deadline_s=deadline, timeout_ms=30000)
     ck.enum(exep, ["--part=paths", "--len=%d" % Lp], "paths", batch=1000, deadline_s=deadline, timeout_ms=30000)
